@@ -52,7 +52,20 @@ var alphabet = []alphaTok{
 	{"if", "if"},
 	{`\A\B`, `\A\B`},
 	{"full-width-space", "　"},
+	// keyword-case stress (symbols 24..): keywords and keyword-like names in other spellings; whatever
+	// the lexer classifies them as, their text must be the source text at their span
+	{"IF", "IF"},
+	{"Echo", "Echo"},
+	{"NULL", "NULL"},
+	{"TRUE", "TRUE"},
+	{"Function", "Function"},
+	{"DEFAULT", "DEFAULT"},
+	{"List", "List"},
+	{"Color::LIST", "Color::LIST"},
+	{"->default", "->default"},
 }
+
+const nStress = 24 // the position-stress alphabet proper
 
 var joiners = []string{"", " "}
 
@@ -149,6 +162,7 @@ func (x *spanExplorer) report(src, mode, clause, origin string) {
 type alphaShard struct {
 	Prefix []int `json:"prefix"`
 	Len    int   `json:"len"`
+	NSym   int   `json:"nsym"` // symbols 0..NSym-1 of the alphabet
 }
 
 func alphaWorker(w *pool.W, raw json.RawMessage) {
@@ -191,7 +205,7 @@ func alphaWorker(w *pool.W, raw json.RawMessage) {
 			}
 			return
 		}
-		for a := range alphabet {
+		for a := 0; a < sh.NSym; a++ {
 			seq[pos] = a
 			gen(pos + 1)
 		}
@@ -348,14 +362,20 @@ func main() {
 		shards = append(shards, pool.Shard{Kind: "corpus", Arg: corpusShard{Files: small[i:j], Prefixes: true}})
 	}
 	c.Set("corpus_files_with_all_prefixes", nPrefixFiles)
+	// all symbols (position stress + keyword case) up to length 3; the 24 position-stress symbols
+	// alone up to maxLen
 	for l := maxLen; l >= 1; l-- {
+		nsym := len(alphabet)
+		if l > 3 {
+			nsym = nStress
+		}
 		if l < 3 {
-			shards = append(shards, pool.Shard{Kind: "alpha", Arg: alphaShard{Prefix: []int{}, Len: l}})
+			shards = append(shards, pool.Shard{Kind: "alpha", Arg: alphaShard{Prefix: []int{}, Len: l, NSym: nsym}})
 			continue
 		}
-		for a := range alphabet {
-			for b := range alphabet {
-				shards = append(shards, pool.Shard{Kind: "alpha", Arg: alphaShard{Prefix: []int{a, b}, Len: l}})
+		for a := 0; a < nsym; a++ {
+			for b := 0; b < nsym; b++ {
+				shards = append(shards, pool.Shard{Kind: "alpha", Arg: alphaShard{Prefix: []int{a, b}, Len: l, NSym: nsym}})
 			}
 		}
 	}
@@ -407,7 +427,7 @@ func main() {
 	if len(outcomes) < 3 || tokens < 1000 || programs < 100 {
 		c.HarnessError("vacuous: outcomes=%d tokens=%d programs=%d", len(outcomes), tokens, programs)
 	}
-	c.Finish(inputs+programs, lexes+programs, inputs+programs, fmt.Sprintf("span clause: %d corpus files + their token-boundary prefixes + all alphabet strings of length <= %d (x2 joiners x3 lexing modes), every top-level token compared with the source text; location clause: fault kind x position x filler kind x mode", len(files), maxLen))
+	c.Finish(inputs+programs, lexes+programs, inputs+programs, fmt.Sprintf("span clause: %d corpus files + their token-boundary prefixes + all strings of <= 3 tokens over the 33-symbol alphabet and of <= %d tokens over its 24 position-stress symbols (x2 joiners x4 lexing set-ups), every top-level token compared with the source text; location clause: fault kind x position x filler kind x mode", len(files), maxLen))
 }
 
 func replay(c *ev.Check) {
